@@ -31,5 +31,5 @@ func TestS4(t *testing.T) {
 	}
 
 	// first accesses of a re-opened persistent-backed state overlapping its lazy load
-	hk.RunSub(t, hk.Sub[CPlan]{Name: "s4/reopen", Quick: 300, Thorough: 3000, Gen: GenReopenPlan, Run: RunS4})
+	hk.RunSub(t, hk.Sub[CPlan]{Name: "s4/reopen", Quick: 1200, Thorough: 6000, Gen: GenReopenPlan, Run: RunS4})
 }
